@@ -194,6 +194,12 @@ StringDictionaryHHTFC::StringDictionaryHHTFC(IteratorDictString *it,
               // The last element is directly padded
               codeSubstr = (codeSubstr << (TABLEBITSO - ptrSubstr));
               ptrSubstr = TABLEBITSO;
+              // These padding bits are indexed as zeroes, and the header
+              // decoding reads up to two bytes ahead: both bytes must be in
+              // the stream, and must be zero.
+              textStrings[bytesStrings] = 0;
+              textStrings[bytesStrings + 1] = 0;
+              bytesStrings++;
               break;
             }
 
